@@ -63,6 +63,8 @@ def deep(doc):
                     # (a float array is the data of a source: assigned unshaped, save() gives that very array the documented shape — size, not shape)
                     shape = tuple(v.shape) if v.dtype.kind in 'iu' else ('size', int(v.size))
                     extra.append(('prim.' + name, shape, str(v.dtype), hashlib.sha1(numpy.ascontiguousarray(v).tobytes()).hexdigest()[:12]))
+    # where the document says it came from (auxiliary files are looked up relative to it, lazily)
+    extra.append(('filename', repr(getattr(doc, 'filename', None))))
     s['_deep'] = extra
     return s
 
@@ -259,9 +261,18 @@ def check_history(kind, seed, nops, nsaves, queries):
     if df:
         return ('model-changed', 'save changed the in-memory model: %s' % '; '.join(df[:3]))
     for i in range(nsaves):
-        k = r.choice(['save', 'write', 'query', 'query'])
+        k = r.choice(['save', 'write', 'query', 'query', 'wpath'])
         if k == 'save':
             doc.save()
+        elif k == 'wpath':
+            tmp = tempfile.mkdtemp(prefix='c03w_')
+            try:
+                path = os.path.join(tmp, 'copy.dae')
+                doc.write(path)
+                if open(path, 'rb').read() != ref:
+                    return ('not-idempotent', 'write number %d (to a path) after %s produced different bytes than the first write' % (i + 2, hist))
+            finally:
+                shutil.rmtree(tmp, ignore_errors=True)
         elif k == 'write':
             if wbytes(doc) != ref:
                 return ('not-idempotent', 'write number %d after %s produced different bytes than the first write' % (i + 2, hist))
@@ -427,6 +438,9 @@ def check_failure(seed, mode, dest):
             with open(path, 'wb') as f:
                 f.write(b'previous content')
         before = deep(doc)
+        # another document of the process, in the default namespace, written before the failure …
+        bystander = build_pair(seed + 1)[0]
+        by_ref = wbytes(bystander)
         if mode == 'scene':
             good = doc.scene
             doc.scene = scene.Scene('stranger', [])
@@ -476,6 +490,15 @@ def check_failure(seed, mode, dest):
                 return ('sink-no-error', 'a sink that raises after %d bytes did not make write() raise' % k)
             except IOError:
                 pass
+        # … and after it: the same bytes (a failed write leaves nothing behind in the process either)
+        try:
+            by_out = wbytes(bystander)
+        except Exception as e:
+            return ('after-failure-raises:bystander', 'after a failed write (%s) of one document the write of ANOTHER document raises %s' % (mode, type(e).__name__))
+        if by_out != by_ref:
+            k = next((i for i in range(min(len(by_out), len(by_ref))) if by_out[i] != by_ref[i]), min(len(by_out), len(by_ref)))
+            return ('after-failure-differs:bystander', 'after a failed write (%s%s) of one document ANOTHER document of the process is written differently than before: …%r… instead of …%r…'
+                    % (mode, ', namespace %s' % uri if uri else '', by_out[max(0, k - 30):k + 40], by_ref[max(0, k - 30):k + 40]))
         try:
             out = wbytes(doc)
         except Exception as e:
